@@ -1,5 +1,6 @@
-import PyhfModel.Tensor
+import PyhfModel.Decl
 import PyhfProofs.Lemmas.Lists
+import PyhfProofs.Lemmas.Canon
 /-!
 # C12 — the model configuration is a consistent partition and honours overrides
 Statements about `parSlices`, `Config.channelSlices`, the suggestion lists and the auxiliary-data
@@ -95,5 +96,110 @@ theorem auxdata_one_per_constrained_component {K : Type} (ps : List (Paramset K)
 /-- the constraint order lists exactly the constrained paramsets, in creation order -/
 theorem aux_order_is_constrained_subsequence {K : Type} (ps : List (Paramset K)) :
     auxOrder ps = (ps.filter (·.constrained)).map (·.name) := rfl
+
+/-! ## canonical orders and independence of the listing order -/
+
+/-- the reported channel, sample lists are strictly increasing (sorted, duplicate-free) -/
+theorem config_channels_strictly_sorted {K : Type} (s : Spec K) : (mkConfig s).channels.Pairwise (· < ·) :=
+  canon_strictly_sorted _
+
+theorem config_samples_strictly_sorted {K : Type} (s : Spec K) : (mkConfig s).samples.Pairwise (· < ·) :=
+  canon_strictly_sorted _
+
+/-- a channel is reported iff it is declared -/
+theorem config_channels_mem {K : Type} (s : Spec K) (c : String) :
+    c ∈ (mkConfig s).channels ↔ ∃ ch ∈ s.channels, ch.name = c := by
+  simp [mkConfig, canon_mem]
+
+theorem config_samples_mem {K : Type} (s : Spec K) (sm : String) :
+    sm ∈ (mkConfig s).samples ↔ ∃ ch ∈ s.channels, ∃ x ∈ ch.samples, x.name = sm := by
+  simp [mkConfig, canon_mem]
+
+/-- the reported name lists depend only on the *sets* of declared names: any re-listing of channels, of the
+samples inside channels and of the modifiers inside samples that keeps those sets gives the same lists -/
+theorem config_names_order_independent {K : Type} (s s' : Spec K)
+    (hc : ∀ a, a ∈ s.channels.map (·.name) ↔ a ∈ s'.channels.map (·.name))
+    (hs : ∀ a, a ∈ (s.channels.flatMap fun c => c.samples.map (·.name)) ↔
+               a ∈ (s'.channels.flatMap fun c => c.samples.map (·.name)))
+    (hm : ∀ a, a ∈ (s.channels.flatMap fun c => c.samples.flatMap fun sm => sm.mods.map fun m => (m.name, m.type.str)) ↔
+               a ∈ (s'.channels.flatMap fun c => c.samples.flatMap fun sm => sm.mods.map fun m => (m.name, m.type.str))) :
+    (mkConfig s).channels = (mkConfig s').channels ∧ (mkConfig s).samples = (mkConfig s').samples ∧
+    (mkConfig s).modifiers = (mkConfig s').modifiers := by
+  refine ⟨canon_eq_of_mem_iff _ _ hc, canon_eq_of_mem_iff _ _ hs, ?_⟩
+  simp only [mkConfig]
+  rw [canonPairs_eq_of_mem_iff _ _ hm]
+
+theorem filter_unique_perm {α : Type} (p : α → Bool) (l l' : List α) (h : l.Perm l')
+    (hu : ∀ a ∈ l, ∀ b ∈ l, p a = true → p b = true → a = b) (hnd : l.Nodup) :
+    l.filter p = l'.filter p := by
+  have hp : (l.filter p).Perm (l'.filter p) := h.filter p
+  have hnd' : (l.filter p).Nodup := hnd.filter p
+  have hlen : (l.filter p).length ≤ 1 := by
+    match hf : l.filter p with
+    | [] => simp
+    | [a] => simp
+    | a :: b :: rest =>
+      have ha : a ∈ l.filter p := by rw [hf]; simp
+      have hb : b ∈ l.filter p := by rw [hf]; simp
+      have := hu a (List.mem_filter.mp ha).1 b (List.mem_filter.mp hb).1 (List.mem_filter.mp ha).2 (List.mem_filter.mp hb).2
+      rw [hf] at hnd'
+      simp [this] at hnd'
+  match hf : l.filter p, hf' : l'.filter p with
+  | [], [] => rfl
+  | [], b :: _ => rw [hf, hf'] at hp; simp at hp
+  | a :: _, [] => rw [hf, hf'] at hp; simp at hp
+  | [a], [b] => rw [hf, hf'] at hp; simpa using hp
+  | [a], b :: c :: _ => rw [hf, hf'] at hp; have := hp.length_eq; simp at this
+  | a :: b :: _, _ => rw [hf] at hlen; simp at hlen
+
+/-- **Permuting the channel list changes nothing** in the reported summary (channels, samples, modifiers,
+bin counts, hence slices), when channel names are unique. -/
+theorem config_channel_perm_invariant {K : Type} (s s' : Spec K) (hpar : s'.parameters = s.parameters)
+    (hperm : s.channels.Perm s'.channels) (hnd : (s.channels.map (·.name)).Nodup) :
+    mkConfig s = mkConfig s' := by
+  have hc : ∀ a, a ∈ s.channels.map (·.name) ↔ a ∈ s'.channels.map (·.name) := fun a => (hperm.map _).mem_iff
+  have hs : ∀ a, a ∈ (s.channels.flatMap fun c => c.samples.map (·.name)) ↔
+      a ∈ (s'.channels.flatMap fun c => c.samples.map (·.name)) := fun a => (hperm.flatMap_right _).mem_iff
+  have hm : ∀ a, a ∈ (s.channels.flatMap fun c => c.samples.flatMap fun sm => sm.mods.map fun m => (m.name, m.type.str)) ↔
+      a ∈ (s'.channels.flatMap fun c => c.samples.flatMap fun sm => sm.mods.map fun m => (m.name, m.type.str)) :=
+    fun a => (hperm.flatMap_right _).mem_iff
+  obtain ⟨h1, h2, h3⟩ := config_names_order_independent s s' hc hs hm
+  have hnb : ∀ c, lastSome (·.name == c) s.channels = lastSome (·.name == c) s'.channels := by
+    intro c
+    unfold lastSome
+    rw [filter_unique_perm _ _ _ hperm ?_ (List.Nodup.of_map _ hnd)]
+    intro a ha b hb pa pb
+    have hab : a.name = b.name := by
+      have h1 : a.name = c := by simpa using pa
+      have h2 : b.name = c := by simpa using pb
+      rw [h1, h2]
+    exact List.inj_on_of_nodup_map hnd ha hb hab
+  have e : (mkConfig s).nbins = (mkConfig s').nbins := by
+    simp only [mkConfig] at h1 ⊢
+    rw [h1]
+    apply List.map_congr_left
+    intro c _
+    rw [hnb c]
+  cases hcfg : mkConfig s; cases hcfg' : mkConfig s'
+  rw [hcfg, hcfg'] at h1 h2 h3 e
+  simp only at h1 h2 h3 e
+  subst h1 h2 h3 e
+  rfl
+
+/-- **Workspace data layout**: observations concatenated in the reported channel order, then the auxiliary data
+(one block per channel, so with observations of the channels' bin counts the main part has `nmaindata` entries and
+bin `b` of channel `c` sits at `channel_slices[c].start + b`). -/
+theorem workspace_data_layout {K : Type} (m : Model K) (obs : List (String × List K)) :
+    workspaceData m obs = (m.cfg.channels.flatMap fun c => ((obs.find? (·.1 == c)).map (·.2)).getD []) ++ auxData m.ps := rfl
+
+theorem workspace_data_length {K : Type} (m : Model K) (obs : List (String × List K))
+    (hobs : ∀ c ∈ m.cfg.channels, (((obs.find? (·.1 == c)).map (·.2)).getD []).length = m.cfg.nbOf c)
+    (hsum : m.cfg.nmain = (m.cfg.channels.map m.cfg.nbOf).sum) :
+    (workspaceData m obs).length = m.cfg.nmain + (auxData m.ps).length := by
+  simp only [workspaceData, if_true, List.length_append, List.length_flatMap, hsum]
+  congr 2
+  apply List.map_congr_left
+  intro c hc
+  exact hobs c hc
 
 end Pyhf.Props.C12
